@@ -179,6 +179,8 @@ pub fn replay_any(body: &Value) -> Result<Option<String>, String> {
             }
             Ok(out.violation.map(|v| format!("[{:?}] {}", v.oracle, v.msg)))
         }
+        Some("c16") => seq::c16_replay(body),
+        Some("c02-erasure") => seq::c02_erasure_replay(body),
         Some(k) => Err(format!("unknown replay kind {}", k)),
         None => Err("replay without kind".into()),
     }
